@@ -1407,12 +1407,15 @@ static void set_model(const struct ctx *cx, const struct val *v, size_t len, str
         return;
     }
     int lv = len_valid_for_type(v->type, len);
-    int unterminated = v->type == T_S && len > 0 && len < v->n;
+    /* the block handed over holds min(len, natural) value bytes, then 'Z' padding */
+    int unterminated = v->type == T_S && len > 0 && memchr(v->p, 0, len < v->n ? len : v->n) == NULL;
     if (!lv) {
         sv->must_reject = 1;
         sv->reason = "wrong-length";
         sv_add(sv, EINVAL);
     }
+    if (unterminated)
+        sv_add(sv, EINVAL);             /* a string without its NUL: a wrong length/value whatever the name is */
     switch (cx->kind) {
     case NK_MALFORMED:
     case NK_TOOLONG:
@@ -1753,6 +1756,18 @@ static void fresh_cell(struct ctx *cx, const struct val *v, size_t len)
         xcm_close(s);
     if (cli)
         xcm_close(cli);
+    if (which == 2 && !s) {
+        /* a refused xcm_accept_a may leave the connection in the listen queue: empty it */
+        struct xcm_attr_map *dm = xcm_attr_map_create();
+        xcm_attr_map_add_bool(dm, "xcm.blocking", false);
+        for (int i = 0; i < 8; i++) {
+            struct xcm_socket *x = xcm_accept_a(w->server, dm);
+            if (!x)
+                break;
+            xcm_close(x);
+        }
+        xcm_attr_map_destroy(dm);
+    }
     free(d.p);
 }
 
